@@ -617,6 +617,9 @@ func (s *S3Proxy) UploadPart(ctx context.Context, input *s3.UploadPartInput) (*s
 	}
 
 	body := &bodyErrReader{r: input.Body}
+	if input.ContentLength != nil {
+		body.limit = *input.ContentLength
+	}
 	if input.Body != nil {
 		input.Body = body
 	}
@@ -811,13 +814,20 @@ func (s *S3Proxy) PutObject(ctx context.Context, input s3response.PutObjectInput
 	// and then omits the decoded content length: drain the (verifying)
 	// reader and send a seekable empty body instead
 	if input.ContentLength != nil && *input.ContentLength == 0 && input.Body != nil {
-		if _, err := io.Copy(io.Discard, input.Body); err != nil {
+		n, err := io.Copy(io.Discard, input.Body)
+		if err != nil {
 			return s3response.PutObjectOutput{}, err
+		}
+		if n != 0 {
+			return s3response.PutObjectOutput{}, errBodyLongerThanDeclared
 		}
 		input.Body = bytes.NewReader(nil)
 	}
 
 	body := &bodyErrReader{r: input.Body}
+	if input.ContentLength != nil {
+		body.limit = *input.ContentLength
+	}
 	if input.Body != nil && (input.ContentLength == nil || *input.ContentLength != 0) {
 		input.Body = body
 	}
@@ -1593,6 +1603,29 @@ type bodyErrReader struct {
 	err  error
 	held []byte
 	done bool
+	// limit is the declared length of the body (0: unknown): a body that
+	// delivers more is refused before its limit-th byte is handed on
+	limit int64
+	srcN  int64
+}
+
+var errBodyLongerThanDeclared = s3err.APIError{
+	Code:           "IncompleteBody",
+	Description:    "You did not provide the number of bytes specified by the Content-Length HTTP header.",
+	HTTPStatusCode: http.StatusBadRequest,
+}
+
+// tooLong counts m more bytes read from the body and reports whether the body
+// has now delivered more than it declared
+func (b *bodyErrReader) tooLong(m int) bool {
+	b.srcN += int64(m)
+	if b.limit > 0 && b.srcN > b.limit {
+		if b.err == nil {
+			b.err = errBodyLongerThanDeclared
+		}
+		return true
+	}
+	return false
 }
 
 func (b *bodyErrReader) Read(p []byte) (int, error) {
@@ -1611,6 +1644,9 @@ func (b *bodyErrReader) Read(p []byte) (int, error) {
 			// byte ahead to learn whether the held one is the last
 			var one [1]byte
 			m, err := b.r.Read(one[:])
+			if b.tooLong(m) {
+				return 0, b.err
+			}
 			switch {
 			case m == 1 && (err == nil || err == io.EOF):
 				// more follows: the held byte goes out, the new one is held
@@ -1633,6 +1669,9 @@ func (b *bodyErrReader) Read(p []byte) (int, error) {
 		}
 		m, err := b.r.Read(p[n:])
 		n += m
+		if b.tooLong(m) {
+			return 0, b.err
+		}
 		switch {
 		case err == io.EOF:
 			b.done = true
